@@ -155,6 +155,22 @@ def lazy_documents():
                [('quote', 1), ('list', 1), ('item', 1), ('para', 1), ('item', n + 2), ('para', n + 2)])
         # block after the quote
         yield ('\n'.join(['> a'] + lazy + ['', 'g']) + '\n', [('quote', 1), ('para', 1), ('para', n + 3)])
+    # counts: long lists (marker width grows at the tenth item), tables with many rows, deep nesting, many blank lines
+    for n in (9, 10, 11, 12, 30, 100, 101):
+        for step in (1, 2, 3):
+            lines, exp = [], [('list', 1)]
+            for i in range(n):
+                m = '%d. ' % (i + 1)
+                exp += [('item', len(lines) + 1), ('para', len(lines) + 1)]
+                lines += [m + 'i'] + [' ' * len(m) + 'c'] * (step - 1)
+            yield ('\n'.join(lines) + '\n', exp)
+        t = ['| h | k |', '|---|---|'] + ['| r%d | x |' % i for i in range(n)]
+        yield ('\n'.join(['w', ''] + t) + '\n', [('para', 1), ('table', 3)])
+        yield ('\n' * n + '# h\n' + '\n' * n + 'p\n', [('atx', n + 1), ('para', 2 * n + 2)])
+        yield ('\n'.join(['p%d\n' % i for i in range(n)]) + '\n', [('para', 2 * i + 1) for i in range(n)])
+    for n in (9, 10, 20, 50):
+        yield ('> ' * n + 'w\n' + '> ' * n + '\n' + '> ' * n + '# h\n', [('quote', 1)] * n + [('para', 1), ('atx', 3)])
+        yield ('- ' * n + 'w\n', [x for _ in range(n) for x in (('list', 1), ('item', 1))] + [('para', 1)])
     # tables whose rows have fewer / as many / more cells than the delimiter row has columns (every cell reports the row's line)
     rows = ['| c |', '| c | d |', '| c | d | e |', '| c | d | e | f |', '|', '| | | |']
     for k in range(1, len(rows) + 1):
